@@ -168,6 +168,140 @@ theorem approx_exp_core_total (chk : Bool) (z zc : Nat) (hz : z < 2 ^ 63) : ∃ 
   rw [hy]
   exact ⟨_, rfl⟩
 
+/-- value of one Horner step -/
+theorem horner_step_val (chk : Bool) (z y cu : Nat) (hz : z < 2 ^ 63) (hy : y ≤ cu) (hcu : cu < 2 ^ 64) :
+    hornerStep chk z y cu = .ok (cu - z * y / 2 ^ 63) ∧ z * y / 2 ^ 63 ≤ y := by
+  have hq : z * y / 2 ^ 63 ≤ y := by
+    apply Nat.div_le_of_le_mul
+    exact Nat.mul_le_mul_right y (Nat.le_of_lt hz)
+  have hmod : z * y / 2 ^ 63 % 2 ^ 64 = z * y / 2 ^ 63 := Nat.mod_eq_of_lt (by omega)
+  unfold hornerStep
+  rw [hmod]
+  refine ⟨?_, hq⟩
+  rw [arithU_ok chk 64 _ (by omega) (by
+      have : ((2 : Int) ^ 64) = 18446744073709551616 := by decide
+      rw [this]; have : (2:Nat) ^ 64 = 18446744073709551616 := by decide
+      omega)]
+  congr 1
+  omega
+
+/-- the Horner value never exceeds the coefficient it was last subtracted from -/
+theorem horner_le (chk : Bool) (z : Nat) (hz : z < 2 ^ 63) : ∀ (cs : List Nat) (y : Nat),
+    nondecreasing (y :: cs) = true → (∀ c ∈ cs, c < 2 ^ 64) → y < 2 ^ 64 →
+    ∃ y', horner chk z cs y = .ok y' ∧ y' ≤ cs.getLastD y := by
+  intro cs
+  induction cs with
+  | nil => intro y _ _ _; exact ⟨y, rfl, Nat.le_refl _⟩
+  | cons cu rest ih =>
+    intro y hnd hc hy
+    simp only [nondecreasing, Bool.and_eq_true, decide_eq_true_eq] at hnd
+    have hcu := hc cu (List.mem_cons_self ..)
+    obtain ⟨y', h1, h2⟩ := horner_step_ok chk z y cu hz hnd.1 hcu
+    simp only [horner, h1, Res.bind_ok]
+    have hnd' : nondecreasing (y' :: rest) = true := by
+      cases rest with
+      | nil => rfl
+      | cons c r =>
+        have := hnd.2
+        simp only [nondecreasing, Bool.and_eq_true, decide_eq_true_eq] at this ⊢
+        exact ⟨by omega, this.2⟩
+    obtain ⟨y'', h3, h4⟩ := ih y' hnd' (fun c hc' => hc c (List.mem_cons_of_mem _ hc')) (by omega)
+    refine ⟨y'', h3, ?_⟩
+    cases rest with
+    | nil =>
+      have h5 : y'' ≤ y' := by simpa using h4
+      have h6 : [cu].getLastD y = cu := by simp
+      rw [h6]; omega
+    | cons c r =>
+      have h6 : (cu :: c :: r).getLastD y = (c :: r).getLastD y' := by simp [List.getLastD]
+      rw [h6]; exact h4
+
+theorem horner_append (chk : Bool) (z : Nat) : ∀ (cs : List Nat) (c y : Nat),
+    horner chk z (cs ++ [c]) y = (horner chk z cs y >>= fun y1 => hornerStep chk z y1 c) := by
+  intro cs
+  induction cs with
+  | nil =>
+    intro c y
+    cases h : hornerStep chk z y c <;> simp [horner, h]
+  | cons a rest ih =>
+    intro c y
+    simp only [List.cons_append, horner]
+    cases h : hornerStep chk z y a with
+    | ok y' => simp only [Res.bind_ok, ih]
+    | panic k => simp
+
+/-- **ApproxExp is bounded away from zero**: for every z < 2^63 (x in [0, 1)) and every scaling zc = ⌊2^63·ccs⌋ with
+    ccs in [1/2, 1] (ccs = σ_min/σ' ≥ σ_min/σ_max ≈ 0.70), the integer core returns a value in [23552, 2^63], in both
+    build modes: the last Horner step subtracts at most 0x7FFFFFFFFFFF4800 from 2^63 -/
+theorem approx_exp_core_range (chk : Bool) (z zc : Nat) (hz : z < 2 ^ 63) (hlo : 2 ^ 62 ≤ zc) (hhi : zc ≤ 2 ^ 63) :
+    ∃ r, approxExpCore chk z zc = .ok r ∧ 23552 ≤ r ∧ r ≤ 2 ^ 63 := by
+  unfold approxExpCore
+  rw [expC_is_spec]
+  simp only []
+  have happ := horner_append chk z
+    [0x00000036548CFC06, 0x0000024FDCBF140A, 0x0000171D939DE045, 0x0000D00CF58F6F84,
+     0x000680681CF796E3, 0x002D82D8305B0FEA, 0x011111110E066FD0, 0x0555555555070F00, 0x155555555581FF00,
+     0x400000000002B400, 0x7FFFFFFFFFFF4800] 0x8000000000000000 0x00000004741183A3
+  simp only [List.cons_append, List.nil_append] at happ
+  rw [happ]
+  obtain ⟨y1, hy1, hle⟩ := horner_le chk z hz
+    [0x00000036548CFC06, 0x0000024FDCBF140A, 0x0000171D939DE045, 0x0000D00CF58F6F84,
+     0x000680681CF796E3, 0x002D82D8305B0FEA, 0x011111110E066FD0, 0x0555555555070F00, 0x155555555581FF00,
+     0x400000000002B400, 0x7FFFFFFFFFFF4800] 0x00000004741183A3 (by decide) (by decide) (by decide)
+  have hle' : y1 ≤ 0x7FFFFFFFFFFF4800 := by simpa [List.getLastD] using hle
+  obtain ⟨hs, hq⟩ := horner_step_val chk z y1 0x8000000000000000 hz (by omega) (by decide)
+  rw [hy1]
+  simp only [Res.bind_ok, hs]
+  generalize hyv : 0x8000000000000000 - z * y1 / 2 ^ 63 = y
+  have hylo : 47104 ≤ y := by omega
+  have hyhi : y ≤ 2 ^ 63 := by omega
+  have h1 : zc * y ≤ 2 ^ 63 * 2 ^ 63 := Nat.mul_le_mul hhi hyhi
+  have h2 : 2 ^ 62 * 47104 ≤ zc * y := Nat.mul_le_mul hlo hylo
+  have h3 : zc * y / 2 ^ 63 ≤ 2 ^ 63 := by
+    apply Nat.div_le_of_le_mul; exact h1
+  have h4 : 23552 ≤ zc * y / 2 ^ 63 := by
+    apply (Nat.le_div_iff_mul_le (by decide)).mpr
+    calc 23552 * 2 ^ 63 = 2 ^ 62 * 47104 := by decide
+      _ ≤ zc * y := h2
+  have hmod : zc * y / 2 ^ 63 % 2 ^ 64 = zc * y / 2 ^ 63 := Nat.mod_eq_of_lt (by omega)
+  exact ⟨_, rfl, by rw [hmod]; exact h4, by rw [hmod]; exact h3⟩
+
+/-- **the integer part of BerExp is total**: for every value e ≥ 1 that ApproxExp can return (see
+    `approx_exp_core_range`: e ≥ 23552), every shift s (clamped to 63) and every 7 random bytes, in both build modes —
+    `2e − 1` does not underflow and the lazy comparison stays inside its bytes -/
+theorem ber_exp_core_total (chk : Bool) (e s : Nat) (bytes : List Nat) (he : 1 ≤ e) (hb : bytes.length = 7) :
+    ∃ b, berExpCore chk e s bytes = .ok b := by
+  unfold berExpCore
+  have : e * 2 ≥ 1 := by omega
+  simp only [this, if_true, Res.bind_ok]
+  obtain ⟨w, hw⟩ := ber_loop_total ((e * 2 - 1) / 2 ^ min s 63 % 2 ^ 64) bytes hb
+  simp only [hw, Res.bind_ok]
+  exact ⟨_, rfl⟩
+
+/-- ApproxExp followed by the BerExp comparison: total for every x in [0, 1) (as 63-bit fixed point), every ccs in
+    [1/2, 1], every shift and every 7 bytes -/
+theorem approx_then_ber_total (chk : Bool) (z zc s : Nat) (bytes : List Nat) (hz : z < 2 ^ 63) (hlo : 2 ^ 62 ≤ zc)
+    (hhi : zc ≤ 2 ^ 63) (hb : bytes.length = 7) :
+    ∃ b, (approxExpCore chk z zc >>= fun e => berExpCore chk e s bytes) = .ok b := by
+  obtain ⟨r, hr, h1, _⟩ := approx_exp_core_range chk z zc hz hlo hhi
+  rw [hr]
+  exact ber_exp_core_total chk r s bytes (by omega) hb
+
+/-- **the last addition of `sampler_z`** (`z + floor(mu) as i16` in i16): for every base-sampler value z0 ≤ 18 and sign
+    bit b, no overflow in either build mode whenever the centre's integer part is within [−32750, 32748].  Outside that
+    window the i16 result type cannot hold the sample (known finding F7: `mu = 40000` saturates, `−40000` overflows). -/
+theorem sampler_z_final_add_ok (chk : Bool) (z0 b : Nat) (s16 : Int) (hz0 : z0 ≤ 18) (hb : b ≤ 1)
+    (h0 : -32750 ≤ s16) (h1 : s16 ≤ 32748) :
+    arithS chk 16 (((b : Int) + (2 * (b : Int) - 1) * (z0 : Int)) + s16) = .ok (((b : Int) + (2 * (b : Int) - 1) * (z0 : Int)) + s16) := by
+  have hb' : b = 0 ∨ b = 1 := by omega
+  apply arithS_ok
+  · rcases hb' with rfl | rfl <;> simp <;> omega
+  · rcases hb' with rfl | rfl <;> simp <;> omega
+
+/-- … and the window is sharp: at the saturated centre 32767 the sample 19 does not fit (F7) -/
+theorem sampler_z_final_add_overflows : arithS true 16 (((1 : Int) + (2 * 1 - 1) * 18) + 32767) = .panic .overflow := by
+  decide
+
 /-! ### non-vacuity -/
 example : baseSamplerU 0 = 18 ∧ baseSamplerU 1 = 17 ∧ baseSamplerU 3024686241123004913666 = 0 ∧
     baseSamplerU 3024686241123004913665 = 1 := by decide
